@@ -56,6 +56,19 @@ def width(p, cfg):
   return 1
 
 
+def doc_scaled(p, v):
+  """The documented scaled feature of value v of a numeric parameter (core.py: scaler_from_spec), in float64."""
+  lo, hi = cd.bounds(p)
+  try:
+    if p['sc'] == 'LOG':
+      return (math.log(v) - math.log(lo)) / (math.log(hi) - math.log(lo))
+    if p['sc'] == 'RLOG':
+      return 1.0 - (math.log(lo + (hi - v)) - math.log(lo)) / (math.log(hi) - math.log(lo))
+    return (v - lo) / (hi - lo)
+  except (ValueError, ZeroDivisionError, OverflowError):
+    return None
+
+
 def sibling_space(rng, space, f32=False):
   """Same names and parameter types, different feasible sets (one category / value / integer more or less)."""
   out = []
@@ -589,6 +602,12 @@ def judge_case(c, meta, m, recheck):
         elif lo == hi:
           if x != 0.5:
             c.prop_fail('unit-interval', 'singleton-domain feature of %s is %r, not 0.5' % (p['name'], x), dict(describe(meta), point=pt))
+        elif lo < v < hi and doc_scaled(p, v) is not None and abs(x - doc_scaled(p, v)) > max(10 * tol, 1e-3) and not (cd.rlog_absorbs(p, f32) and not VARIANT['stableRlog']):
+          # the documented scaling formulas (linear / log / reverse log), computed here in float64, at INTERIOR points;
+          # the tolerance is wide: this predicate is about WHICH formula is applied, the tie is about its digits
+          c.prop_fail('scaling-formula', 'scaled feature of %s=%r (bounds %r..%r, declared scale %s) is %r; the documented %s scaling gives %r' % (
+              p['name'], v, lo, hi, p['sc'], x, {'LOG': 'logarithmic', 'RLOG': 'reverse-logarithmic'}.get(p['sc'], 'linear'), doc_scaled(p, v)),
+                      dict(describe(meta), point=pt))
         elif (v == lo and abs(x) > tol) or (v == hi and abs(x - 1) > tol):
           c.prop_fail(KEY_RLOG if (cd.rlog_absorbs(p, f32) and not VARIANT['stableRlog']) else 'orientation', 'scaled feature of %s=%r (bounds %r..%r, %s) is %r; lower bound must map to 0 and upper bound to 1' % (p['name'], v, lo, hi, p['sc'], x),
                       dict(describe(meta), point=pt))
